@@ -981,6 +981,7 @@ type MacroNode struct {
 	defaults map[string]Node
 	body     []Node
 	line     int
+	siblings map[string]Node // All macros of the defining template (set once, when the template is parsed)
 }
 
 func (n *MacroNode) Type() NodeType {
@@ -1127,6 +1128,13 @@ func (n *MacroNode) CallMacro(w io.Writer, ctx *RenderContext, args ...interface
 	macroCtx := NewRenderContext(ctx.env, nil, ctx.engine)
 	macroCtx.parent = ctx
 	macroCtx.sandboxed = ctx.sandboxed // A macro called from inside a sandbox stays inside it
+
+	// The macros of the defining template are callable from the body (directly
+	// or through _self), however this macro was reached: called in its own
+	// template, through an imported module or through from-import
+	for name, sibling := range n.siblings {
+		macroCtx.macros[name] = sibling
+	}
 
 	// Ensure context is released even in error paths
 	defer macroCtx.Release()
